@@ -26,10 +26,12 @@ import ast
 # Control structure types that increase nesting depth
 _CONTROL_STRUCTURES = (
     ast.For,
+    ast.AsyncFor,
     ast.While,
     ast.With,
     ast.AsyncWith,
     ast.Try,
+    getattr(ast, "TryStar", ast.Try),  # try / except* (Python 3.11+)
     ast.Match,  # a match statement with its case arms is one level (like switch/case)
 )
 
